@@ -7,8 +7,17 @@
    [lit_match] is the numeric literal  ^\s*([+-]?\d+(?:\.\d* )?(?:e[+-]\d+)?)  of the expression parser.
    [cleanup] and [lit_match] are PROVED equal, on every text, to the regenerated regexes run by the engine (first block).
    All theorems are for ALL texts of the grammar (any length).  What CPython itself guarantees (shortest repr,
-   correctly rounded strtod) is a HYPOTHESIS of Section CPython, visible in the types below, never an axiom. *)
+   correctly rounded strtod) is a HYPOTHESIS of Section CPython, visible in the types below, never an axiom.
+
+   LAST BLOCK (theorems named C13_model_repr_...): the development now has a model of repr(float) itself (Model/LibMore.v repr_float:
+   shortest round-trip digits + CPython's layout) and of value_string on a number (num_text_full).  For THAT repr the
+   contract is no longer a hypothesis: the theorems of the last block prove it (text in the grammar, float() reads it back
+   as the same double, the conversion depends on the value only, the printer is total on valid doubles).  The
+   Section-hypothesis theorems stay: they hold for ANY repr/strtod pair satisfying the contract. *)
 From BS Require Import Model.Base Model.Num Model.Regex Model.NumText Gen.Unicode Gen.Regexes Proofs.C13 Proofs.C13rx.
+From Coq Require Import SpecFloat.
+From BS Require Model.Arith Model.LibMore Model.Interp Model.LibAll.
+From BS Require Import Proofs.C13Ratio Proofs.C13Repr Proofs.C13NumStr Proofs.C13Total Proofs.C13Lib.
 Local Open Scope Z_scope.
 
 (* THE TIE BETWEEN THE DIRECT FUNCTIONS AND THE REGENERATED REGEXES IS A THEOREM (Proofs/C13rx.v, via Proofs/RegexEval.v:
@@ -156,3 +165,125 @@ Theorem C13_nonvacuous :
   value_parse_number (U "1e309") = None /\ value_parse_number (U "nan") = None /\ value_parse_number (U "-Infinity") = None /\
   value_parse_number (U "1_0") = py_float (U "10") /\ value_parse_integer (U " -1_2 ") = Some (-12) /\ value_parse_integer (U "0x10") = None.
 Proof. exact repr_samples. Qed.
+
+(* ====================================================================================================================
+   THE CONTRACT DISCHARGED FOR THE MODEL'S repr(float)  (Proofs/C13Ratio.v, C13Repr.v, C13NumStr.v, C13Total.v)
+
+   The theorems above take CPython's contract as hypotheses about an arbitrary pair (repr, strtod).  Below, repr is the
+   MODEL's printer  Model/LibMore.v [repr_float]  (for n = 1..17 digits: the two n-digit decimals around m * 2^e, a
+   candidate accepted only when [dec_to_sf] reads it back as the same double; trailing zeros stripped; CPython's layout:
+   positional for 1e-4 <= |x| < 1e16, exponent form otherwise), value_string on a number is  [num_text_full]
+   (Model/Arith.v num_to_str where it answers, the exact decimal expansion; else cleanup (repr_float x)), and strtod is the
+   model's correctly rounded [dec_to_sf] (the conversion inside py_float).  These are theorems about the model; the model's
+   repr_float / num_text_full are tied to CPython's repr and to value_string by the correspondence runs of harness/c13.py and
+   harness/libcorr.py (model text = implementation text on thousands of doubles).
+   [valid_binary prec emax f] says f is a binary64 (canonical mantissa and exponent): SpecFloat has other finite values,
+   which no double denotes; Section CPython above quantifies over all of them, which is why it cannot be instantiated
+   literally and the statements are given directly.  No hypothesis about CPython remains in this block. *)
+Local Notation repr_float := BS.Model.LibMore.repr_float.
+Local Notation repr_layout := BS.Model.LibMore.repr_layout.
+Local Notation short_digits := BS.Model.LibMore.short_digits.
+Local Notation num_text_full := BS.Model.LibMore.num_text_full.
+Local Notation ARes := BS.Model.Arith.ARes.
+
+(* third hypothesis of Section CPython (strtod_by_value), for the model's conversion: only the rational m * 10^e matters *)
+Theorem C13_model_repr_strtod_by_value : forall neg m e k, 0 <= m -> 0 <= k ->
+  dec_to_sf neg (m * 10 ^ k) (e - k) = dec_to_sf neg m e.
+Proof. exact dec_to_sf_shift. Qed.
+Print Assumptions C13_model_repr_strtod_by_value.
+Theorem C13_model_repr_strtod_by_value_general : forall neg m e m' e' j, 0 <= m -> 0 <= m' -> 0 <= j -> 0 <= e + j -> 0 <= e' + j ->
+  m * 10 ^ (e + j) = m' * 10 ^ (e' + j) -> dec_to_sf neg m e = dec_to_sf neg m' e'.
+Proof. exact dec_to_sf_by_value. Qed.
+Print Assumptions C13_model_repr_strtod_by_value_general.
+(* a decimal that IS a binary64 converts to it (what makes the exact texts of num_to_str read back) *)
+Theorem C13_model_repr_strtod_exact : forall neg d k j m e, valid_binary prec emax (S754_finite neg m e) = true ->
+  0 <= d -> 0 <= j -> 0 <= k + j -> d * 10 ^ (k + j) * 2 ^ 1074 = Zpos m * 2 ^ (e + 1074) * 10 ^ j ->
+  dec_to_sf neg d k = S754_finite neg m e.
+Proof. exact dec_to_sf_exact. Qed.
+Print Assumptions C13_model_repr_strtod_exact.
+
+(* (1) the digits short_digits accepts convert back to the double they were produced for *)
+Theorem C13_model_repr_digits : forall m e d k, short_digits m e = Some (d, k) ->
+  0 < d /\ dec_to_sf false d k = S754_finite false m e.
+Proof. exact short_digits_sound. Qed.
+Print Assumptions C13_model_repr_digits.
+
+(* (2) every layout (0.000ddd, ddd.ddd, ddd000.0, d.ddde+XX) is read by float() as d * 10^k *)
+Theorem C13_model_repr_layout : forall neg d k, 0 < d -> py_float (repr_layout neg d k) = Some (dec_to_sf neg d k).
+Proof. exact py_float_repr_layout. Qed.
+Print Assumptions C13_model_repr_layout.
+
+(* first hypothesis of Section CPython: the text is in the grammar *)
+Theorem C13_model_repr_in_grammar : forall f s, repr_float f = ARes s -> repr_ok s = true.
+Proof. exact repr_float_repr_ok. Qed.
+Print Assumptions C13_model_repr_in_grammar.
+
+(* (3) second hypothesis of Section CPython: float() reads the repr text back as the same double ... *)
+Theorem C13_model_repr_roundtrip : forall f s, repr_float f = ARes s -> py_float s = Some f.
+Proof. exact repr_float_roundtrip. Qed.
+Print Assumptions C13_model_repr_roundtrip.
+(* ... and so does numberParseFloat's model after value_string's clean-up pass (the conclusion of C13_roundtrip) *)
+Theorem C13_model_repr_roundtrip_clean : forall f s, repr_float f = ARes s ->
+  value_parse_number (value_string_float s) = Some f.
+Proof. exact repr_float_parse_number. Qed.
+Print Assumptions C13_model_repr_roundtrip_clean.
+(* the conclusion of C13_roundtrip_literal: for x > 0 the printed text is, as a whole, one numeric literal that reads back *)
+Theorem C13_model_repr_roundtrip_literal : forall f s, repr_float f = ARes s -> is_neg_text s = false ->
+  let text := value_string_float s in lit_match text = Some (O, length text) /\ py_float text = Some f.
+Proof. exact repr_float_literal. Qed.
+Print Assumptions C13_model_repr_roundtrip_literal.
+
+(* (4) totality: for every binary64 m * 2^e some candidate is accepted (17 significant digits always read back, 10^16 > 2^53);
+       so the whole contract holds, with nothing assumed, for every finite non-zero double *)
+Theorem C13_model_repr_total : forall s m e, valid_binary prec emax (S754_finite s m e) = true ->
+  exists t, repr_float (S754_finite s m e) = ARes t.
+Proof. exact repr_float_total. Qed.
+Print Assumptions C13_model_repr_total.
+Theorem C13_model_repr_contract : forall s m e, valid_binary prec emax (S754_finite s m e) = true ->
+  exists t, repr_float (S754_finite s m e) = ARes t /\ repr_ok t = true /\
+            float_with dec_to_sf t = Some (S754_finite s m e) /\
+            value_parse_number (value_string_float t) = Some (S754_finite s m e).
+Proof. exact repr_float_contract. Qed.
+Print Assumptions C13_model_repr_contract.
+
+(* value_string on a number as the interpreter model prints it: every valid double (zeros, nan, inf included) has a text, and
+   float() reads that text back as the same double; numberParseFloat's model returns every finite one *)
+Theorem C13_model_repr_value_string_roundtrip : forall f t, valid_binary prec emax f = true ->
+  num_text_full (NFlt f) = ARes t -> py_float t = Some f.
+Proof. exact num_text_full_roundtrip. Qed.
+Print Assumptions C13_model_repr_value_string_roundtrip.
+Theorem C13_model_repr_value_string_total : forall f, valid_binary prec emax f = true ->
+  exists t, num_text_full (NFlt f) = ARes t /\ py_float t = Some f.
+Proof. exact num_text_full_total. Qed.
+Print Assumptions C13_model_repr_value_string_total.
+Theorem C13_model_repr_value_string_parse_number : forall f, valid_binary prec emax f = true -> sf_is_finite f = true ->
+  exists t, num_text_full (NFlt f) = ARes t /\ value_parse_number t = Some f.
+Proof. exact num_text_full_total_parse. Qed.
+Print Assumptions C13_model_repr_value_string_parse_number.
+
+(* for x >= 0 (sf_nonneg_finite: +0 or a finite double with sign bit clear) the printed text is, as a whole, one numeric literal of
+   the expression grammar (with C13_model_repr_value_string_roundtrip: a literal that reads back as x) *)
+Theorem C13_model_repr_value_string_literal : forall f t, valid_binary prec emax f = true -> sf_nonneg_finite f = true ->
+  num_text_full (NFlt f) = ARes t -> lit_match t = Some (O, length t).
+Proof. exact num_text_full_literal. Qed.
+Print Assumptions C13_model_repr_value_string_literal.
+
+(* THE PROPERTY ITSELF, in the interpreter's library model (Model/LibAll.v libfull: the table the interpreter model calls):
+   for every finite double x,  numberParseFloat(stringNew(x)) == x  — stringNew answers with a string t (never declined, never
+   null) and numberParseFloat of that string answers with the number x (argument validation from the regenerated Gen/ArgSpecs.v,
+   the separator test, the model's exponent guard and the finiteness filter all pass) *)
+Theorem C13_model_repr_library_roundtrip :
+  forall (cfg : BS.Model.Interp.config) (cb : BS.Model.Interp.caller) (f : flt) (w : BS.Model.Interp.world),
+  valid_binary prec emax f = true -> sf_is_finite f = true ->
+  exists t, fst (BS.Model.LibAll.libfull cfg cb (U "stringNew") [BS.Model.Interp.VNum (NFlt f)] w)
+              = BS.Model.Interp.LVal (BS.Model.Interp.VStr t) /\
+            fst (BS.Model.LibAll.libfull cfg cb (U "numberParseFloat") [BS.Model.Interp.VStr t] w)
+              = BS.Model.Interp.LVal (BS.Model.Interp.VNum (NFlt f)).
+Proof. exact lib_roundtrip. Qed.
+Print Assumptions C13_model_repr_library_roundtrip.
+
+(* non-vacuity (vm_compute): 0.1, 1e22, 5e-324, 1.7976931348623157e308, 123456789.123, -2.5e-07, 1e16, 0.0001, 123456.0 and
+   2.2250738585072014e-308 are valid doubles, repr_float and num_text_full print exactly CPython's texts for them
+   ("123456.0" / "123456" for the integral one), and py_float / value_parse_number read the texts back as the same double *)
+Theorem C13_model_repr_nonvacuous : forallb sample_ok repr_samples_model = true.
+Proof. exact repr_samples_model_ok. Qed.
